@@ -3,7 +3,9 @@
 package engines
 
 import (
+	"bytes"
 	"context"
+	"crypto/x509"
 	"fmt"
 	"sync"
 	"time"
@@ -11,6 +13,7 @@ import (
 	"github.com/hashicorp/nodeenrollment"
 	"github.com/hashicorp/nodeenrollment/registration"
 	"github.com/hashicorp/nodeenrollment/types"
+	"google.golang.org/protobuf/proto"
 
 	"verifharness/engine"
 	"verifharness/world"
@@ -174,4 +177,101 @@ func runTokensPairs(c *engine.Ctx) {
 		cases = append(cases, tkPairCase{Backend: be, Wrap: i%2 == 0, Seq: i})
 	}
 	engine.ForEach(len(cases), engine.Workers(), func(i int) { runTokensPair(c, cases[i]) })
+	for i := 0; i < c.Pick(6, 30); i++ {
+		runTokensReencodedKey(c, i)
+	}
+	c.R.Require("reencoded:existing_record_unchanged", int64(c.Pick(5, 25)))
+}
+
+// runTokensReencodedKey: "it cannot enroll a key that already has a node record", for a presenter that writes
+// the registered key in another DER encoding (an extra NULL at the end of the SubjectPublicKeyInfo sequence, which
+// crypto/x509 parses to the very same key). Whatever the library makes of such a request - the unchanged tree
+// treats the bytes as another key and files a second record under their own ID, which is counted as an
+// observation - the record the key already has must stay as it is.
+func runTokensReencodedKey(c *engine.Ctx, seq int) {
+	r := c.R
+	be := []string{world.Inmem, world.File, world.StoreOnce}[seq%3]
+	var inner nodeenrollment.Storage
+	s, err := world.NewServer(world.ServerCfg{Backend: be, StorageWrap: seq%2 == 0, Wrap: func(in nodeenrollment.Storage) nodeenrollment.Storage {
+		inner = in
+		return in
+	}})
+	if err != nil {
+		r.Broken("tokens reencoded: server world: " + err.Error())
+		return
+	}
+	defer s.Close()
+	n, err := world.NewNode(false, "")
+	if err != nil {
+		r.Broken("tokens reencoded: node: " + err.Error())
+		return
+	}
+	newTok := func() string {
+		_, tok, err := registration.CreateServerLedActivationToken(s.Ctx, s.Store, &types.ServerLedRegistrationRequest{}, s.Opts()...)
+		if err != nil {
+			return ""
+		}
+		return tok
+	}
+	t1, t2 := newTok(), newTok()
+	if t1 == "" || t2 == "" {
+		r.Broken("tokens reencoded: token creation failed")
+		return
+	}
+	req1, err := n.Creds.CreateFetchNodeCredentialsRequest(s.Ctx, nodeenrollment.WithActivationToken(t1))
+	if err != nil {
+		r.Broken("tokens reencoded: request: " + err.Error())
+		return
+	}
+	if resp, err := registration.FetchNodeCredentials(s.Ctx, s.Store, req1, s.Opts()...); err != nil || resp == nil || len(resp.EncryptedNodeCredentials) == 0 {
+		r.Broken(fmt.Sprintf("tokens reencoded: first enrollment failed: %v", err))
+		return
+	}
+	id, _ := nodeenrollment.KeyIdFromPkix(n.K.Pkix)
+	rawOf := func() []byte {
+		ni := &types.NodeInformation{Id: id}
+		if err := inner.Load(s.Ctx, ni); err != nil {
+			return nil
+		}
+		b, _ := proto.MarshalOptions{Deterministic: true}.Marshal(ni)
+		return b
+	}
+	before := rawOf()
+	if before == nil || n.K.Pkix[0] != 0x30 || n.K.Pkix[1] >= 0x7e {
+		r.Broken("tokens reencoded: no stored record / unexpected key encoding")
+		return
+	}
+	re := append(append([]byte{}, n.K.Pkix...), 0x05, 0x00)
+	re[1] += 2
+	if pk, err := x509.ParsePKIXPublicKey(re); err != nil || !n.K.Pub.Equal(pk) {
+		r.Count("reencoded:encoding-not-accepted-by-crypto-x509", 1)
+		return
+	}
+	req2, err := n.Creds.CreateFetchNodeCredentialsRequest(s.Ctx, nodeenrollment.WithActivationToken(t2))
+	if err != nil {
+		r.Broken("tokens reencoded: second request: " + err.Error())
+		return
+	}
+	req2 = world.Resign(req2, n.K.Priv, func(in *types.FetchNodeCredentialsInfo) { in.CertificatePublicKeyPkix = re })
+	var resp *types.FetchNodeCredentialsResponse
+	var ferr error
+	p, stack := engine.Guard(func() { resp, ferr = registration.FetchNodeCredentials(s.Ctx, s.Store, req2, s.Opts()...) })
+	tc := map[string]any{"kind": "reencoded-key", "backend": be, "seq": seq}
+	r.Eval(engine.J(tc), true)
+	if p != nil {
+		r.Violation("panic:"+engine.LibraryFrame(stack), fmt.Sprintf("FetchNodeCredentials panicked on a re-encoded key: %v", p), tc)
+		return
+	}
+	after := rawOf()
+	answered := ferr == nil && resp != nil && len(resp.EncryptedNodeCredentials) > 0
+	if !bytes.Equal(before, after) {
+		r.Violation("token-replaced-existing-record:reencoded-key", fmt.Sprintf("a second token presented with the registered key written in another DER encoding (trailing NULL in the SubjectPublicKeyInfo) changed the node record the key already had (record still present: %v; request answered with credentials: %v)", after != nil, answered), tc)
+		return
+	}
+	if answered {
+		r.Count("observation:reencoded-registered-key-enrolled-under-a-second-id", 1)
+	} else {
+		r.Count("reencoded:refused", 1)
+	}
+	r.Count("reencoded:existing_record_unchanged", 1)
 }
